@@ -398,6 +398,50 @@ type Case struct {
 	Choices [][]int   `json:"choices"`        // one random path script per reader; empty = one DFS
 	Conc    bool      `json:"concurrent"`
 	Muts    []gen.Mutation `json:"mutations"`
+	// Lie > 0: composite list pointers declare fewer words than their tag word implies (1: zero words, 2: one word,
+	// 3: half).  The elements are all there, so what is handed out is what the tag describes.
+	Lie int `json:"lie,omitempty"`
+}
+
+// lieComposite rewrites the word count of every well-formed composite list pointer in the segments.
+func lieComposite(segs [][]byte, mode int) int {
+	n := 0
+	for si, seg := range segs {
+		for w := 0; w+1 <= len(seg)/8; w++ {
+			p := leU64(seg[w*8:])
+			if p&3 != 1 || (p>>32)&7 != 7 {
+				continue
+			}
+			off := int(int32(uint32(p)) >> 2)
+			words := int(p >> 35)
+			tw := w + 1 + off
+			if tw < 0 || (tw+1+words)*8 > len(segs[si]) {
+				continue
+			}
+			tag := leU64(seg[tw*8:])
+			cnt := int(uint32(tag) >> 2)
+			esz := int(uint16(tag>>32)) + int(uint16(tag>>48))
+			if tag&3 != 0 || cnt*esz != words || words == 0 {
+				continue
+			}
+			nw := 0
+			switch mode {
+			case 2:
+				nw = 1
+			case 3:
+				nw = words / 2
+			}
+			if nw >= words {
+				continue
+			}
+			p = p&(1<<35-1) | uint64(nw)<<35
+			for i := 0; i < 8; i++ {
+				seg[w*8+i] = byte(p >> (8 * uint(i)))
+			}
+			n++
+		}
+	}
+	return n
 }
 
 func effT(t uint64) uint64 {
@@ -421,6 +465,11 @@ func run(c Case) (pbt.Result, error) {
 	}
 	raw := L.Segs
 	gen.Apply(raw, c.Muts)
+	if c.Lie > 0 {
+		if lieComposite(raw, c.Lie) > 0 {
+			res.Class("lying-composite-pointer")
+		}
+	}
 	segs, _ := hx.Carve(raw)
 	msg := &capnp.Message{Arena: capnp.MultiSegment(segs), TraverseLimit: c.T, DepthLimit: c.D}
 	T, D := effT(c.T), effD(c.D)
@@ -530,11 +579,12 @@ func genScript(t *rapid.T) []int {
 
 var _ = pbt.Register(pbt.Spec[Case]{
 	Property: "C02", Name: "limits-sequential",
-	Rule:     "object graphs of 1-7 objects (structs, pointer lists, struct lists incl. zero-sized elements x100/1000, text/void/bit leaves) with arbitrary edges (back edges = cycles, shared targets), encoded in 1-3 segments with near/far/double-far edges, optionally with hostile word mutations; TraverseLimit in {8..4096, default}, DepthLimit in {1..9,12,63,64,default}; walk = DFS (step cap) or 1-3 random path scripts mixing Struct.Ptr, List.Struct(i)+Ptr, PointerList.At (also on struct lists). Oracle: along every path the number of successful pointer dereferences never exceeds D; the sum of sizes of all objects handed out (struct bytes; list n*elem, zero-sized element = 8, bit list ceil(n/8)) never exceeds T; with the VerifReadLimit hook the budget starts at T, never increases and drops by at least the size handed out. Non-trivial: graph has a cycle/shared node, a dereference succeeded at level >= 2 and a limit fired.",
+	Rule:     "object graphs of 1-7 objects (structs, pointer lists, struct lists incl. zero-sized elements x100/1000 and, in 3 of 7 cases, list pointers that declare fewer words than their tag word describes, text/void/bit leaves) with arbitrary edges (back edges = cycles, shared targets), encoded in 1-3 segments with near/far/double-far edges, optionally with hostile word mutations; TraverseLimit in {8..4096, default}, DepthLimit in {1..9,12,63,64,default}; walk = DFS (step cap) or 1-3 random path scripts mixing Struct.Ptr, List.Struct(i)+Ptr, PointerList.At (also on struct lists). Oracle: along every path the number of successful pointer dereferences never exceeds D; the sum of sizes of all objects handed out (struct bytes; list n*elem, zero-sized element = 8, bit list ceil(n/8)) never exceeds T; with the VerifReadLimit hook the budget starts at T, never increases and drops by at least the size handed out. Non-trivial: graph has a cycle/shared node, a dereference succeeded at level >= 2 and a limit fired.",
 	Quick:    25000, Thorough: 200000,
 	Gen: func(t *rapid.T) Case {
 		c := Case{Graph: genGraph(t, false), Plan: gen.Plan(t, 3)}
 		genLimits(t, &c)
+		c.Lie = rapid.SampledFrom([]int{0, 0, 0, 0, 1, 2, 3}).Draw(t, "lie")
 		for i, n := 0, rapid.IntRange(0, 3).Draw(t, "nscripts"); i < n; i++ {
 			c.Choices = append(c.Choices, genScript(t))
 		}
